@@ -211,10 +211,29 @@ theorem closed_next_stops (i : Nat) (f : Flt) (w : World) (hc : (w.iters i).clos
     run sem (nextP i) f w = (w, f, some .stopIteration) := by
   simp [run, nextP, genNext, hc, hi, Exc.isException]
 
-theorem closed_control_raises (i n : Nat) (g : Ctl → Ctl) (f : Flt) (w : World) (hc : (w.iters i).closed = true) :
-    run sem (seekP i n) f w = (w, f, some .finalizedIter) ∧
-    run sem (ctlP i g) f w = (w, f, some .finalizedIter) := by
-  simp [run, seekP, ctlP, hc]
+/-- `closed_ops_raise`: on a finalized iterator every control operation, with every argument —
+    `seek(offset, whence)` for every offset (also 0) and every whence, `set_render_size` /
+    `set_frame_duration` / `set_padding` / `set_render_args` with the current or a new value — raises the
+    finalized-iterator error and changes nothing, under every fault plan: the finalized check comes first. -/
+theorem closed_ops_raise (i : Nat) (f : Flt) (w : World) (hc : (w.iters i).closed = true) :
+    (∀ wh off, run sem (seekP i wh off) f w = (w, f, some .finalizedIter)) ∧
+    (∀ k fresh, run sem (setP i k fresh) f w = (w, f, some .finalizedIter)) ∧
+    (∀ g, run sem (ctlP i g) f w = (w, f, some .finalizedIter)) := by
+  refine ⟨fun wh off => ?_, fun k fresh => ?_, fun g => ?_⟩ <;> simp [run, seekP, setP, ctlP, hc]
+
+theorem closed_control_raises (i : Nat) (wh : Whence) (off : Int) (g : Ctl → Ctl) (f : Flt) (w : World)
+    (hc : (w.iters i).closed = true) :
+    run sem (seekP i wh off) f w = (w, f, some .finalizedIter) ∧
+    run sem (ctlP i g) f w = (w, f, some .finalizedIter) :=
+  ⟨(closed_ops_raise i f w hc).1 wh off, (closed_ops_raise i f w hc).2.2 g⟩
+
+/-- `reentrant_close_changes_nothing`: `close()` — and `next()` — called from inside `_render_` while
+    the generator is executing raise `ValueError` and change nothing (on an open iterator): the first
+    thing `close()` does is to close the generator, before it touches the render data. -/
+theorem reentrant_close_changes_nothing (i : Nat) (f : Flt) (w : World) (hc : (w.iters i).closed = false) :
+    run sem (reCloseP i) f w = (w, f, some .valueError) ∧
+    run sem (reNextP i) f w = (w, f, some .valueError) := by
+  simp [run, reCloseP, reNextP, hc, Exc.isException]
 
 /-- `closed_after_end` (3): `close()` and dropping the iterator close it -/
 theorem closed_after_close (i : Nat) (f : Flt) (w : World) (hf : Admissible inj f) :
